@@ -48,8 +48,12 @@ def gen_targets(rng, nmin=1, nmax=6):
 
 def deps_of(targets):
     """the documented dependency relation (whole components), used by generators only"""
+    def comps(x):
+        return [c for c in x.split("/") if c != ""]
+
     def within(d, p):
-        return p == d or p.startswith(d + "/")
+        cd = comps(d)
+        return comps(p)[:len(cd)] == cd
     n = len(targets)
     adj = [[] for _ in range(n)]
     for i, t in enumerate(targets):
@@ -103,9 +107,13 @@ def closure(targets, named):
 class RunScenario:
     """a repository + one `run` invocation, with everything the oracle needs to know"""
 
-    def __init__(self, rng, max_targets=5, with_argmaps=True, custom_dirs=True, undefined_pct=10):
+    def __init__(self, rng, max_targets=5, with_argmaps=True, custom_dirs=True, undefined_pct=10, slash=False):
         self.rng = rng
         self.targets = gen_acyclic_targets(rng, 1, max_targets)
+        if slash and rng.chance(1, 2):
+            # a target path written with a trailing slash names the same directory
+            t = rng.pick(self.targets)
+            t["path"] = t["path"] + "/"
         ncmd = rng.range(1, 3)
         cmds = list(COMMANDS)
         rng.shuffle(cmds)
